@@ -20,10 +20,17 @@ def _alarm(signum, frame):
     raise Watchdog()
 
 
+FLIP = [0]      # orientation variant used by mk_graph (set per job): the definitions do not depend on how an edge is written
+
+
 def mk_graph(g):
+    """the real Graph object; with FLIP[0] = 1 every edge, with 2 every other edge is added as (larger, smaller)"""
     G = cg.Graph(g["n"])
-    for u, v in g["edges"]:
-        G.add_edge(u, v)
+    for i, (u, v) in enumerate(g["edges"]):
+        if FLIP[0] == 1 or (FLIP[0] == 2 and i % 2 == 0):
+            G.add_edge(max(u, v), min(u, v))
+        else:
+            G.add_edge(u, v)
     return G
 
 
@@ -122,6 +129,7 @@ def call_conn(s, obj, flags_arg, acyclic, prim):
 
 def run_conn(job):
     """job: obj, acyclic, form, patterns, expects -> list of mismatches"""
+    FLIP[0] = job.get("flip", 0)
     obj, acyclic, form = job["obj"], job["acyclic"], job["form"]
     n = obj["graph"]["n"]
     shape = (obj["h"], obj["w"]) if obj["kind"] == "grid" else None
@@ -148,6 +156,7 @@ def run_conn(job):
 
 
 def emit_conn(job):
+    FLIP[0] = job.get("flip", 0)
     obj, acyclic, form = job["obj"], job["acyclic"], job["form"]
     n = obj["graph"]["n"]
     shape = (obj["h"], obj["w"]) if obj["kind"] == "grid" else None
@@ -188,6 +197,7 @@ def _call_helper(s, job, arg):
 
 def run_flags(job):
     """families whose only inputs are n boolean flags and whose only output is the verdict"""
+    FLIP[0] = job.get("flip", 0)
     obj, form = job["obj"], job["form"]
     n = job["nflags"]
     shape = (obj["h"], obj["w"]) if (obj["kind"] == "grid" and not job.get("as_graph")) else None
@@ -240,6 +250,7 @@ def _fix_ids(s, ids, bits):
 
 def run_cycle(job):
     """z3 route of active_edges_single_cycle: verdict and, through solve(), the returned array"""
+    FLIP[0] = job.get("flip", 0)
     obj, form = job["obj"], job["form"]
     m = len(obj["graph"]["edges"])
     npts = obj["graph"]["n"]
@@ -283,6 +294,7 @@ def run_cycle(job):
 
 def emit_cycle(job):
     """native-primitive program of single_cycle / single_path"""
+    FLIP[0] = job.get("flip", 0)
     obj, form, which = job["obj"], job["form"], job["which"]
     fn = cg.active_edges_single_cycle if which == "cycle" else cg.active_edges_single_path
     s = Solver()
@@ -359,6 +371,7 @@ def _div_setup(s, job):
 
 
 def run_div(job):
+    FLIP[0] = job.get("flip", 0)
     n, R = job["obj"]["graph"]["n"], job["R"]
     out = []
     old = _cfgmod.config.use_graph_primitive
@@ -383,6 +396,7 @@ def run_div(job):
 
 
 def emit_div(job):
+    FLIP[0] = job.get("flip", 0)
     old = _cfgmod.config.use_graph_primitive
     _cfgmod.config.use_graph_primitive = True
     s = Solver()
@@ -425,6 +439,7 @@ def _sizes_arg(s, job, n):
 
 
 def run_groups(job):
+    FLIP[0] = job.get("flip", 0)
     obj = job["obj"]
     n = obj["graph"]["n"]
     out = []
@@ -494,6 +509,7 @@ def _border_setup(s, job, prim):
 
 
 def run_borders(job):
+    FLIP[0] = job.get("flip", 0)
     m = len(job["obj"]["graph"]["edges"])
     out = []
     for p, exp in zip(job["patterns"], job["expects"]):
@@ -515,6 +531,7 @@ def run_borders(job):
 
 
 def emit_borders(job):
+    FLIP[0] = job.get("flip", 0)
     s = Solver()
     try:
         bits, fixed = _border_setup(s, job, True)
